@@ -1,4 +1,5 @@
 """histcheck.py — shared helpers for the API-history checks (C04 C05 C06 C14 C19)."""
+last_unrelated = []
 import vlib
 
 def gen_histories(model, seeds, nops, ndocs=2, profile=0, cfg="10001"):
@@ -11,6 +12,12 @@ def gen_histories(model, seeds, nops, ndocs=2, profile=0, cfg="10001"):
 def split_history(hist):
     steps = [s for s in hist.split(" ;; ") if " ## " in s]
     ops = [s.split(" ## ")[0] for s in steps]
+    global last_unrelated
+    last_unrelated = []
+    for o in ops:
+        toks = o.split(" ")
+        u = [t[1:] for t in toks if t.startswith("%")]
+        last_unrelated.append([x for x in (u[0].split(",") if u else []) if x])
     exp = [s.split(" ## ")[1] for s in steps]
     return ops, exp
 
@@ -25,8 +32,8 @@ def parse_run(out):
     for p in parts:
         if " ~" in p:
             vis, meta = p.split(" ~", 1)
-            ov, cb, ca = meta.split("~")
-            steps.append((vis, ov, int(cb), int(ca)))
+            f = meta.split("~")
+            steps.append((vis, f[0], int(f[1]), int(f[2]), int(f[3]) if len(f) > 3 else -1))
         elif p.strip():
             trailer += p.strip() + " "
     return steps, trailer.strip()
